@@ -81,6 +81,18 @@ CLAIMED["C11"] = dict(
     text="Seeded search over publication histories, retention configurations, session resets and restarts; the served files are parsed with the rpki RRDP parser after every step and every remembered serial is replayed through the offered delta chain. The cut-point part enumerates the file-system mutations of an update (crash / error / torn write) and checks the served files right after the cut, after background recovery and after a later publication.",
     design_ref="DESIGN.md §5 C11",
 )
+CLAIMED["C07"] = dict(
+    category="exploration",
+    technique="deterministic simulation of real threads: cooperative scheduler (seeded random and PCT policies, recorded decision list) releasing API and reader threads one at a time at Krill's storage/lock switch points; serial witness as oracle",
+    text="Seeded search over interleavings of concurrent commands and reads on the same and different CAs on both back-ends; versions, stored command records and reader observations are checked directly, and linearizability is decided by re-building the same prefix and issuing the same calls one at a time in their commit order (further linear extensions are tried before a mismatch is reported).",
+    design_ref="DESIGN.md §5 C07",
+)
+CLAIMED["C18"] = dict(
+    category="exploration",
+    technique="deterministic simulation of real threads: cooperative scheduler over API threads plus a scheduler stand-in thread running the real background tasks; structural deadlock detection, step budget, serial witness and relying-party walk",
+    text="Seeded search over interleavings of API calls with the real task scheduler (parent and child on one instance, publication server included); deadlock is detected structurally (every unfinished thread blocked on a lock, none can progress), completion is bounded by a step budget, panics and daemon exits are caught unwinds, and the state after quiescence is compared with a serial execution whenever the per-call outcomes coincide.",
+    design_ref="DESIGN.md §5 C18",
+)
 PENDING = {}
 
 def main():
